@@ -9,6 +9,7 @@ import (
 	"fmt"
 	"hash"
 	"strings"
+	"time"
 
 	"verif/memnet"
 )
@@ -27,6 +28,12 @@ type SASLConfig struct {
 	MalformServerFirst bool  // SCRAM: send a malformed server-first message
 	WrongServerSig     bool  // SCRAM: send a wrong server signature in server-final
 	BadNonce           bool  // SCRAM: server-first nonce does not extend the client nonce
+	MalformServerFinal bool  // SCRAM: send a server-final message that is neither v=... nor e=...
+	ServerFinalError   bool  // SCRAM: send "e=other-error" as server-final with error code 0 (in-band SCRAM error)
+	ServerIterations   int   // SCRAM: iteration count announced and used by the server when != 0 (e.g. below a client minimum)
+	// EarlyUnknownUser makes the SCRAM server reject an unknown user at the
+	// client-first message (what Kafka brokers do) instead of at the proof.
+	EarlyUnknownUser bool
 }
 
 // AuthEvent is journalled per connection.
@@ -37,7 +44,8 @@ type AuthEvent struct {
 	Verdict string // ok | rejected | error
 	Step    int
 	Raw     bool
-	Seq     int64
+	Seq     int64 // journal sequence number when the event was recorded
+	ReqSeq  int64 // Seq of the exchange (on ConnID) whose processing produced the verdict
 }
 
 // EnableSASL switches authentication on.
@@ -99,23 +107,54 @@ func (c *Cluster) hSaslHandshake(b *Broker, st *connState, r *Request, act *Acti
 	return map[string]any{"ErrorCode": code, "Mechanisms": enabled}
 }
 
+// saslDrop reports whether the configured fault script closes the connection
+// instead of answering this (framed) request.  Called by handle for every
+// request; raw tokens are handled by serveRawSASL.
+func (c *Cluster) saslDrop(st *connState, r *Request) bool {
+	c.mu.Lock()
+	cfg := c.sasl
+	c.mu.Unlock()
+	if cfg == nil {
+		return false
+	}
+	switch r.ApiKey {
+	case 17:
+		return cfg.CloseAtHandshake
+	case 36:
+		if cfg.CloseAtStep != 0 && cfg.CloseAtStep == st.step+1 {
+			st.step++
+			c.authEvent(AuthEvent{ConnID: r.ConnID, Mech: st.saslMech, Verdict: "closed", Step: st.step, ReqSeq: r.Seq})
+			return true
+		}
+	}
+	return false
+}
+
 // authStep runs one round of the mechanism; done reports a final verdict.
-func (c *Cluster) authStep(sc *memnet.ServerConn, st *connState, cfg *SASLConfig, token []byte) (resp []byte, code int64, msg string, done bool) {
+// reqSeq is the journal sequence number of the exchange carrying the token.
+func (c *Cluster) authStep(sc *memnet.ServerConn, st *connState, cfg *SASLConfig, token []byte, reqSeq int64) (resp []byte, code int64, msg string, done bool) {
 	st.step++
+	ev := AuthEvent{ConnID: sc.ID(), Mech: st.saslMech, Step: st.step, Raw: st.saslRaw, ReqSeq: reqSeq}
 	switch st.saslMech {
 	case "PLAIN":
+		// RFC 4616: [authzid] NUL authcid NUL passwd
 		parts := strings.Split(string(token), "\x00")
 		if len(parts) != 3 {
-			c.authEvent(AuthEvent{ConnID: sc.ID(), Mech: "PLAIN", Verdict: "error", Step: st.step})
+			c.violation("conn %d: malformed PLAIN token %q", sc.ID(), truncate(token, 200))
+			ev.Verdict = "error"
+			c.authEvent(ev)
 			return nil, ErrSASLAuthenticationFailed, "malformed PLAIN token", true
 		}
 		user, pass := parts[1], parts[2]
+		ev.User = user
 		if want, ok := cfg.Users[user]; ok && want == pass {
 			st.authed = true
-			c.authEvent(AuthEvent{ConnID: sc.ID(), Mech: "PLAIN", User: user, Verdict: "ok", Step: st.step})
+			ev.Verdict = "ok"
+			c.authEvent(ev)
 			return []byte{}, 0, "", true
 		}
-		c.authEvent(AuthEvent{ConnID: sc.ID(), Mech: "PLAIN", User: user, Verdict: "rejected", Step: st.step})
+		ev.Verdict = "rejected"
+		c.authEvent(ev)
 		return nil, ErrSASLAuthenticationFailed, "invalid credentials", true
 	case "SCRAM-SHA-256", "SCRAM-SHA-512":
 		if st.scram == nil {
@@ -126,13 +165,19 @@ func (c *Cluster) authStep(sc *memnet.ServerConn, st *connState, cfg *SASLConfig
 			st.scram = &scramServer{h: h, cfg: cfg, nonceSeed: fmt.Sprintf("srv%dn%d", sc.ID(), st.step)}
 		}
 		out, verdict, err := st.scram.step(string(token))
+		ev.User = st.scram.user
 		if err != nil {
-			c.authEvent(AuthEvent{ConnID: sc.ID(), Mech: st.saslMech, User: st.scram.user, Verdict: "rejected", Step: st.step})
+			if st.scram.malformed {
+				c.violation("conn %d: malformed SCRAM client message: %v", sc.ID(), err)
+			}
+			ev.Verdict = "rejected"
+			c.authEvent(ev)
 			return []byte(out), ErrSASLAuthenticationFailed, err.Error(), true
 		}
 		if verdict {
 			st.authed = true
-			c.authEvent(AuthEvent{ConnID: sc.ID(), Mech: st.saslMech, User: st.scram.user, Verdict: "ok", Step: st.step})
+			ev.Verdict = "ok"
+			c.authEvent(ev)
 			return []byte(out), 0, "", true
 		}
 		return []byte(out), 0, "", false
@@ -145,16 +190,22 @@ func (c *Cluster) hSaslAuthenticate(b *Broker, st *connState, r *Request, act *A
 	cfg := c.sasl
 	c.mu.Unlock()
 	if cfg == nil || st.saslMech == "" {
-		return map[string]any{"ErrorCode": int64(ErrIllegalSASLState), "ErrorMessage": "handshake first", "AuthBytes": []byte{}}
+		return map[string]any{"ErrorCode": int64(ErrIllegalSASLState), "ErrorMessage": "handshake first", "AuthBytes": []byte{}, "SessionLifetimeMs": int64(0)}
 	}
 	token, _ := r.Body["AuthBytes"].([]byte)
 	if cfg.AuthError != 0 && cfg.AuthErrorStep == st.step+1 {
 		st.step++
-		return map[string]any{"ErrorCode": int64(cfg.AuthError), "ErrorMessage": "injected", "AuthBytes": []byte{}}
+		c.authEvent(AuthEvent{ConnID: r.ConnID, Mech: st.saslMech, Verdict: "error", Step: st.step, ReqSeq: r.Seq})
+		return map[string]any{"ErrorCode": int64(cfg.AuthError), "ErrorMessage": "injected", "AuthBytes": []byte{}, "SessionLifetimeMs": int64(0)}
 	}
-	resp, code, msg, _ := c.authStep(r.Conn, st, cfg, token)
-	if resp == nil {
-		resp = []byte{}
+	if act.ErrorCode != 0 {
+		st.step++
+		c.authEvent(AuthEvent{ConnID: r.ConnID, Mech: st.saslMech, Verdict: "error", Step: st.step, ReqSeq: r.Seq})
+		return map[string]any{"ErrorCode": int64(act.ErrorCode), "ErrorMessage": "injected", "AuthBytes": []byte{}, "SessionLifetimeMs": int64(0)}
+	}
+	resp, code, msg, _ := c.authStep(r.Conn, st, cfg, token, r.Seq)
+	if resp == nil || code != 0 {
+		resp = []byte{} // brokers answer a failed exchange with the error code and message only
 	}
 	var em any
 	if msg != "" {
@@ -169,24 +220,37 @@ func (c *Cluster) serveRawSASL(b *Broker, sc *memnet.ServerConn, st *connState, 
 	c.mu.Lock()
 	cfg := c.sasl
 	c.seq++
-	ex := &Exchange{Seq: c.seq, ConnID: sc.ID(), BrokerID: b.ID, ApiKey: -36, ApiName: "RawSaslToken", Outcome: "answered"}
+	ex := &Exchange{Seq: c.seq, At: time.Now(), ConnID: sc.ID(), BrokerID: b.ID, ApiKey: -36, ApiName: "RawSaslToken", Outcome: "answered",
+		Body: map[string]any{"AuthBytes": append([]byte{}, token...)}}
 	c.journal = append(c.journal, ex)
 	c.mu.Unlock()
 	if cfg == nil {
+		sc.MarkDead()
 		return false
 	}
 	if cfg.CloseAtStep != 0 && cfg.CloseAtStep == st.step+1 {
+		st.step++
 		ex.Outcome = "dropped-before"
+		c.authEvent(AuthEvent{ConnID: sc.ID(), Mech: st.saslMech, Verdict: "closed", Step: st.step, Raw: true, ReqSeq: ex.Seq})
+		sc.MarkDead()
 		return false
 	}
-	resp, code, _, done := c.authStep(sc, st, cfg, token)
+	resp, code, _, done := c.authStep(sc, st, cfg, token, ex.Seq)
 	if code != 0 {
 		ex.Outcome = "closed"
+		ex.ErrorCode = int16(code) // not sent: there is no error channel in a raw exchange
+		sc.MarkDead()
 		return false // brokers close the connection on a failed raw exchange
 	}
+	ex.RespBody = map[string]any{"AuthBytes": append([]byte{}, resp...)}
 	var lb [4]byte
 	binary.BigEndian.PutUint32(lb[:], uint32(len(resp)))
-	sc.Write(append(lb[:], resp...))
+	if _, err := sc.Write(append(lb[:], resp...)); err != nil {
+		ex.Outcome = "closed"
+		return false
+	}
+	ex.RespBytes = 4 + len(resp)
+	ex.AnsweredAt = time.Now()
 	if done {
 		st.saslRaw = false
 	}
@@ -206,6 +270,8 @@ type scramServer struct {
 	sf        string // server-first
 	nonce     string
 	salt      []byte
+	iter      int
+	malformed bool // the last error was a syntax error of the client message (not a credential problem)
 }
 
 func hmacSum(h func() hash.Hash, key, msg []byte) []byte {
@@ -227,34 +293,73 @@ func hi(h func() hash.Hash, password, salt []byte, iter int) []byte {
 	return out
 }
 
-func scramUnescape(s string) string {
-	return strings.ReplaceAll(strings.ReplaceAll(s, "=2C", ","), "=3D", "=")
+// scramUnescape decodes a saslname (RFC 5802: ',' is sent as "=2C", '=' as
+// "=3D", any other use of '=' is an error) in a single pass.
+func scramUnescape(s string) (string, bool) {
+	var sb strings.Builder
+	for i := 0; i < len(s); i++ {
+		if s[i] != '=' {
+			sb.WriteByte(s[i])
+			continue
+		}
+		switch {
+		case strings.HasPrefix(s[i:], "=2C"):
+			sb.WriteByte(',')
+		case strings.HasPrefix(s[i:], "=3D"):
+			sb.WriteByte('=')
+		default:
+			return "", false
+		}
+		i += 2
+	}
+	return sb.String(), true
 }
 
 func (s *scramServer) step(in string) (out string, done bool, err error) {
 	s.stage++
+	s.malformed = false
+	bad := func(format string, args ...any) (string, bool, error) {
+		s.malformed = true
+		return "e=other-error", false, fmt.Errorf(format, args...)
+	}
 	switch s.stage {
 	case 1:
 		// client-first: gs2-header "n,," then n=<user>,r=<nonce>
 		if !strings.HasPrefix(in, "n,,") {
-			return "e=other-error", false, fmt.Errorf("scram: unsupported gs2 header in %q", in)
+			return bad("scram: unsupported gs2 header in %q", in)
 		}
 		s.cfb = in[3:]
 		fields := strings.Split(s.cfb, ",")
 		if len(fields) < 2 || !strings.HasPrefix(fields[0], "n=") || !strings.HasPrefix(fields[1], "r=") {
-			return "e=other-error", false, fmt.Errorf("scram: malformed client-first %q", in)
+			return bad("scram: malformed client-first %q", in)
 		}
-		s.user = scramUnescape(fields[0][2:])
+		user, ok := scramUnescape(fields[0][2:])
+		if !ok {
+			return bad("scram: invalid username encoding in %q", in)
+		}
+		s.user = user
 		cnonce := fields[1][2:]
 		if cnonce == "" {
-			return "e=other-error", false, fmt.Errorf("scram: empty client nonce")
+			return bad("scram: empty client nonce")
+		}
+		for k := 0; k < len(cnonce); k++ {
+			if cnonce[k] < 0x21 || cnonce[k] > 0x7e {
+				return bad("scram: client nonce is not printable in %q", in)
+			}
+		}
+		if _, known := s.cfg.Users[s.user]; !known && s.cfg.EarlyUnknownUser {
+			return "e=unknown-user", false, fmt.Errorf("scram: unknown user")
 		}
 		s.nonce = cnonce + s.nonceSeed
 		if s.cfg.BadNonce {
 			s.nonce = "x" + s.nonceSeed
 		}
+		s.iter = s.cfg.Iterations
+		if s.cfg.ServerIterations != 0 {
+			s.iter = s.cfg.ServerIterations
+		}
 		s.salt = []byte("salt-" + s.user)
-		s.sf = fmt.Sprintf("r=%s,s=%s,i=%d", s.nonce, base64.StdEncoding.EncodeToString(s.salt), s.cfg.Iterations)
+		s.sf = fmt.Sprintf("r=%s,s=%s,i=%d", s.nonce, base64.StdEncoding.EncodeToString(s.salt), s.iter)
 		if s.cfg.MalformServerFirst {
 			s.sf = "r=" + s.nonce + ",x=garbage"
 		}
@@ -263,19 +368,25 @@ func (s *scramServer) step(in string) (out string, done bool, err error) {
 		// client-final: c=biws,r=<nonce>,p=<proof>
 		i := strings.LastIndex(in, ",p=")
 		if i < 0 {
-			return "e=other-error", false, fmt.Errorf("scram: malformed client-final %q", in)
+			return bad("scram: malformed client-final %q", in)
 		}
 		withoutProof, proofB64 := in[:i], in[i+3:]
 		fields := strings.Split(withoutProof, ",")
-		if len(fields) < 2 || fields[0] != "c=biws" || fields[1] != "r="+s.nonce {
-			return "e=other-error", false, fmt.Errorf("scram: channel binding or nonce mismatch in %q", in)
+		if len(fields) < 2 || fields[0] != "c=biws" {
+			return bad("scram: channel binding mismatch in %q", in)
+		}
+		if fields[1] != "r="+s.nonce {
+			return bad("scram: nonce mismatch in %q", in)
 		}
 		proof, derr := base64.StdEncoding.DecodeString(proofB64)
-		pass, known := s.cfg.Users[s.user]
-		if derr != nil || !known {
-			return "e=invalid-proof", false, fmt.Errorf("scram: unknown user or bad proof encoding")
+		if derr != nil {
+			return bad("scram: proof is not base64 in %q", in)
 		}
-		salted := hi(s.h, []byte(pass), s.salt, s.cfg.Iterations)
+		pass, known := s.cfg.Users[s.user]
+		if !known {
+			return "e=unknown-user", false, fmt.Errorf("scram: unknown user")
+		}
+		salted := hi(s.h, []byte(pass), s.salt, s.iter)
 		clientKey := hmacSum(s.h, salted, []byte("Client Key"))
 		hh := s.h()
 		hh.Write(clientKey)
@@ -285,17 +396,28 @@ func (s *scramServer) step(in string) (out string, done bool, err error) {
 		if len(proof) != len(sig) {
 			return "e=invalid-proof", false, fmt.Errorf("scram: invalid proof")
 		}
+		// ClientKey' = proof XOR signature must hash to StoredKey
+		ck := make([]byte, len(sig))
 		for k := range sig {
-			if proof[k]^sig[k] != clientKey[k] {
-				return "e=invalid-proof", false, fmt.Errorf("scram: invalid proof")
-			}
+			ck[k] = proof[k] ^ sig[k]
+		}
+		hh = s.h()
+		hh.Write(ck)
+		if !hmac.Equal(hh.Sum(nil), storedKey) {
+			return "e=invalid-proof", false, fmt.Errorf("scram: invalid proof")
 		}
 		serverKey := hmacSum(s.h, salted, []byte("Server Key"))
 		ssig := hmacSum(s.h, serverKey, []byte(authMsg))
 		if s.cfg.WrongServerSig {
 			ssig[0] ^= 1
 		}
+		switch {
+		case s.cfg.MalformServerFinal:
+			return "x=garbage", true, nil
+		case s.cfg.ServerFinalError:
+			return "e=other-error", true, nil
+		}
 		return "v=" + base64.StdEncoding.EncodeToString(ssig), true, nil
 	}
-	return "", false, fmt.Errorf("scram: exchange already finished")
+	return bad("scram: exchange already finished")
 }
